@@ -56,6 +56,21 @@ func (w *world) vsExported(v *vsT, ns string) bool {
 	return exportedTo(v.ExportTo, w.Mesh.VSDefault, v.NS, ns)
 }
 
+// delegateMerged: a delegate contributes its routes to the rule that references it iff the delegate
+// is exported to that rule's namespace.
+func (w *world) delegateMerged(v *vsT) bool {
+	return v.Delegate != nil && exportedTo(v.Delegate.ExportTo, w.Mesh.VSDefault, v.Delegate.NS, v.NS)
+}
+
+// effDests: the destinations the rule routes to, the merged delegate's included.
+func (w *world) effDests(v *vsT) []destT {
+	out := append([]destT{}, v.Dests...)
+	if w.delegateMerged(v) {
+		out = append(out, v.Delegate.Dests...)
+	}
+	return out
+}
+
 func (w *world) drExported(d *drT, ns string) bool {
 	return exportedTo(d.ExportTo, w.Mesh.DRDefault, d.NS, ns)
 }
@@ -303,7 +318,7 @@ func (w *world) judge(p proxyT) *verdict {
 		}
 		if may {
 			v.VSMay = append(v.VSMay, vs.Name)
-			for _, d := range vs.Dests {
+			for _, d := range w.effDests(vs) {
 				vsDest[d.Host] = true
 			}
 		}
